@@ -39,7 +39,7 @@ impl GrepLine<'_> {
         self.submatches = self.submatches.as_ref().map(|submatches| {
             submatches
                 .iter()
-                .map(|(a, b)| (a + shift, b + shift))
+                .map(|(a, b)| (a.saturating_add(shift), b.saturating_add(shift)))
                 .collect()
         });
     }
